@@ -155,7 +155,7 @@ def partRegion (part : Str) : Bool :=
     raw != [] && name != [] &&
       !(hasPrefixQ raw && hasSuffixQ raw) &&
       (!raw.contains cSpace || (!bracketed raw && name != nameRegex))
-  else trimSpace part != []   -- both trim the name a second time; always true for a trimmed non-empty part (not proved here)
+  else true
 
 def partReason (part : Str) : String :=
   let part := trimSpace part
